@@ -115,6 +115,20 @@ pub trait Property: Sync {
     fn exhaustive_note(&self) -> Option<&'static str> {
         None
     }
+    /// run exploration in child processes with an intent log, so that process aborts (stack
+    /// overflow, allocator abort) and hangs are attributable to a scenario
+    fn isolated(&self) -> bool {
+        false
+    }
+    /// clauses that depend on measured time: a failure that does not reproduce on replay is
+    /// counted as noise instead of being a harness error
+    fn noisy_clause(&self, _clause: &str) -> bool {
+        false
+    }
+    /// per-case hang limit in seconds (isolated mode)
+    fn hang_limit_s(&self, _case: &Case) -> u64 {
+        120
+    }
     /// property-specific smaller variants of a failing case (tried by the shrinker)
     fn shrink_candidates(&self, _case: &Case) -> Vec<Case> {
         vec![]
@@ -138,6 +152,8 @@ pub struct Explorer<'a> {
     pub tier: Tier,
     pub slot: Option<Arc<Slot>>,
     pub sample_budget: usize,
+    /// print the case to stdout before executing it (isolated mode)
+    pub intent: bool,
 }
 
 impl Explorer<'_> {
@@ -146,7 +162,19 @@ impl Explorer<'_> {
         if let Some(s) = &self.slot {
             *s.cur.lock().unwrap() = Some((Instant::now(), case.clone()));
         }
+        if self.intent {
+            use std::io::Write;
+            let mut o = std::io::stdout().lock();
+            let _ = writeln!(o, "I {}", serde_json::to_string(&case).unwrap_or_default());
+            let _ = o.flush();
+        }
         let r = self.prop.check(&case, &mut self.stats);
+        if self.intent {
+            use std::io::Write;
+            let mut o = std::io::stdout().lock();
+            let _ = writeln!(o, "D");
+            let _ = o.flush();
+        }
         if let Some(s) = &self.slot {
             *s.cur.lock().unwrap() = None;
         }
@@ -534,6 +562,7 @@ pub fn explore_batch(prop: &dyn Property, tier: Tier, seed: u64, runs: u64, nwor
                         tier,
                         slot: Some(slot.clone()),
                         sample_budget: if run < 3 { 1 } else { 0 },
+                        intent: false,
                     };
                     prop.explore(&mut rng, tier, &mut ex);
                     results.lock().unwrap().push((run, ex));
@@ -643,7 +672,7 @@ pub fn run_check(prop: &dyn Property, tier: Tier) -> i32 {
 
     // 2. seeded exploration
     let runs = std::env::var("VERIF_RUNS").ok().and_then(|s| s.parse().ok()).unwrap_or_else(|| prop.runs(tier));
-    let br = explore_batch(prop, tier, seed, runs, workers());
+    let br = if prop.isolated() { explore_batch_isolated(prop, tier, seed, runs, workers()) } else { explore_batch(prop, tier, seed, runs, workers()) };
     harness_errors.extend(br.harness_errors);
     let samples = br.stats.samples.clone();
     stats.merge(br.stats);
@@ -700,6 +729,9 @@ pub fn run_check(prop: &dyn Property, tier: Tier) -> i32 {
                 truncate(&sfail.detail, 400)
             );
             exit = 1;
+        } else if prop.noisy_clause(clause) {
+            n_violations -= items.len() as i64;
+            stats.add("noise.non_reproducing_timing_failures", items.len() as u64);
         } else {
             harness_errors.push(format!("non-reproducing failure of {clause}: replay {}", path.display()));
         }
@@ -828,4 +860,224 @@ pub fn run_replay(prop: &dyn Property, path: &Path) -> i32 {
             2
         }
     }
+}
+
+// ---------------------------------------------------------------------------------------------
+// Isolated exploration: child processes + intent log
+// ---------------------------------------------------------------------------------------------
+
+/// Child side: explore runs [from, to) sequentially, printing the intent (`I <case>`) before
+/// every check, failures (`F ..`), a stats summary (`S ..`) and an end marker (`E`).
+pub fn explore_child(prop: &dyn Property, tier: Tier, seed: u64, from: u64, to: u64) -> i32 {
+    use std::io::Write;
+    struct IntentSlot;
+    let out = std::io::stdout();
+    let mut total = Stats::default();
+    for run in from..to {
+        let mut rng = Rng::new(seed, prop.id(), run);
+        let mut ex = Explorer {
+            prop,
+            stats: Stats::default(),
+            fails: vec![],
+            harness_errors: vec![],
+            run,
+            tier,
+            slot: None,
+            sample_budget: if run < 3 { 1 } else { 0 },
+            intent: true,
+        };
+        prop.explore(&mut rng, tier, &mut ex);
+        let mut o = out.lock();
+        for (c, f) in &ex.fails {
+            let _ = writeln!(o, "F {}", json!({"run": run, "case": c, "clause": f.clause, "detail": f.detail, "known": f.known}));
+        }
+        for e in &ex.harness_errors {
+            let _ = writeln!(o, "H {}", json!(e));
+        }
+        let _ = o.flush();
+        drop(o);
+        let samples = std::mem::take(&mut ex.stats.samples);
+        if total.samples.len() < 3 {
+            total.samples.extend(samples);
+        }
+        total.merge(ex.stats);
+    }
+    let _ = IntentSlot;
+    let mut o = out.lock();
+    let _ = writeln!(
+        o,
+        "S {}",
+        json!({
+            "counters": total.counters,
+            "distinct": total.distinct.iter().collect::<Vec<_>>(),
+            "cut_contexts": total.cut_contexts.iter().collect::<Vec<_>>(),
+            "evaluations": total.evaluations,
+            "ticks": total.ticks,
+            "probes": total.probes.to_vec(),
+            "samples": total.samples,
+        })
+    );
+    let _ = writeln!(o, "E");
+    let _ = o.flush();
+    0
+}
+
+pub fn explore_batch_isolated(prop: &dyn Property, tier: Tier, seed: u64, runs: u64, nworkers: usize) -> BatchResult {
+    use std::io::{BufRead, BufReader};
+    use std::process::{Command, Stdio};
+    let exe = std::env::current_exe().expect("current_exe");
+    let nchild = nworkers.max(1) as u64;
+    let per = runs.div_ceil(nchild).max(1);
+    let mut out = BatchResult { stats: Stats::default(), fails: vec![], harness_errors: vec![], runs };
+    struct ChildState {
+        last_intent: Option<(Instant, String)>,
+        ended: bool,
+    }
+    let results: Mutex<Vec<(u64, Vec<String>, Option<String>, String)>> = Mutex::new(vec![]); // (from, lines F/S/H, abnormal last intent, how)
+    std::thread::scope(|sc| {
+        for k in 0..nchild {
+            let from = k * per;
+            let to = ((k + 1) * per).min(runs);
+            if from >= to {
+                continue;
+            }
+            let exe = exe.clone();
+            let results = &results;
+            sc.spawn(move || {
+                let mut child = match Command::new(&exe)
+                    .args(["explore-child", prop.id(), tier.name(), &seed.to_string(), &from.to_string(), &to.to_string()])
+                    .stdout(Stdio::piped())
+                    .stderr(Stdio::piped())
+                    .spawn()
+                {
+                    Ok(c) => c,
+                    Err(e) => {
+                        results.lock().unwrap().push((from, vec![format!("H {}", json!(format!("cannot spawn child: {e}")))], None, String::new()));
+                        return;
+                    }
+                };
+                let stdout = child.stdout.take().unwrap();
+                let stderr = child.stderr.take().unwrap();
+                let state = Arc::new(Mutex::new(ChildState { last_intent: None, ended: false }));
+                let st2 = state.clone();
+                let lines: Arc<Mutex<Vec<String>>> = Arc::new(Mutex::new(vec![]));
+                let l2 = lines.clone();
+                let reader = std::thread::spawn(move || {
+                    for line in BufReader::new(stdout).lines().map_while(Result::ok) {
+                        if let Some(rest) = line.strip_prefix("I ") {
+                            st2.lock().unwrap().last_intent = Some((Instant::now(), rest.to_string()));
+                        } else if line == "D" {
+                            st2.lock().unwrap().last_intent = None;
+                        } else if line == "E" {
+                            st2.lock().unwrap().ended = true;
+                        } else {
+                            l2.lock().unwrap().push(line);
+                        }
+                    }
+                });
+                let err_reader = std::thread::spawn(move || {
+                    let mut s = String::new();
+                    for line in BufReader::new(stderr).lines().map_while(Result::ok) {
+                        if s.len() < 4000 {
+                            s.push_str(&line);
+                            s.push(' ');
+                        }
+                    }
+                    s
+                });
+                // monitor for hangs
+                let mut how = String::new();
+                let status = loop {
+                    match child.try_wait() {
+                        Ok(Some(st)) => break Some(st),
+                        Ok(None) => {}
+                        Err(_) => break None,
+                    }
+                    let hung = {
+                        let g = state.lock().unwrap();
+                        match &g.last_intent {
+                            Some((t0, c)) => {
+                                let limit = serde_json::from_str::<Case>(c).map(|c| prop.hang_limit_s(&c)).unwrap_or(120);
+                                t0.elapsed().as_secs() >= limit
+                            }
+                            None => false,
+                        }
+                    };
+                    if hung {
+                        let _ = child.kill();
+                        how = "hang".into();
+                        let _ = child.wait();
+                        break None;
+                    }
+                    std::thread::sleep(std::time::Duration::from_millis(100));
+                };
+                let _ = reader.join();
+                let stderr_text = err_reader.join().unwrap_or_default();
+                let g = state.lock().unwrap();
+                let abnormal = if g.ended && how.is_empty() {
+                    None
+                } else {
+                    if how.is_empty() {
+                        how = format!("child terminated abnormally: {status:?}; stderr: {}", truncate(&stderr_text, 600));
+                    }
+                    Some(g.last_intent.as_ref().map(|x| x.1.clone()).unwrap_or_default())
+                };
+                let l = lines.lock().unwrap().clone();
+                results.lock().unwrap().push((from, l, abnormal, how));
+            });
+        }
+    });
+    let mut rs = results.into_inner().unwrap();
+    rs.sort_by_key(|r| r.0);
+    for (from, lines, abnormal, how) in rs {
+        for line in lines {
+            if let Some(rest) = line.strip_prefix("F ") {
+                if let Ok(v) = serde_json::from_str::<Value>(rest) {
+                    if let Ok(case) = serde_json::from_value::<Case>(v["case"].clone()) {
+                        out.fails.push((
+                            v["run"].as_u64().unwrap_or(0),
+                            case,
+                            Fail { clause: v["clause"].as_str().unwrap_or("").into(), detail: v["detail"].as_str().unwrap_or("").into(), known: v["known"].as_str().map(String::from) },
+                        ));
+                    }
+                }
+            } else if let Some(rest) = line.strip_prefix("H ") {
+                out.harness_errors.push(rest.to_string());
+            } else if let Some(rest) = line.strip_prefix("S ") {
+                if let Ok(v) = serde_json::from_str::<Value>(rest) {
+                    let mut st = Stats::default();
+                    if let Some(m) = v["counters"].as_object() {
+                        for (k, x) in m {
+                            st.counters.insert(k.clone(), x.as_u64().unwrap_or(0));
+                        }
+                    }
+                    for x in v["distinct"].as_array().cloned().unwrap_or_default() {
+                        st.distinct.insert(x.as_u64().unwrap_or(0));
+                    }
+                    for x in v["cut_contexts"].as_array().cloned().unwrap_or_default() {
+                        st.cut_contexts.insert(x.as_u64().unwrap_or(0));
+                    }
+                    st.evaluations = v["evaluations"].as_u64().unwrap_or(0);
+                    st.ticks = v["ticks"].as_u64().unwrap_or(0);
+                    for (i, x) in v["probes"].as_array().cloned().unwrap_or_default().iter().enumerate().take(32) {
+                        st.probes[i] = x.as_u64().unwrap_or(0);
+                    }
+                    if out.stats.samples.len() < 3 {
+                        out.stats.samples.extend(v["samples"].as_array().cloned().unwrap_or_default());
+                    }
+                    out.stats.merge(st);
+                }
+            }
+        }
+        if let Some(intent) = abnormal {
+            match serde_json::from_str::<Case>(&intent) {
+                Ok(case) => {
+                    let clause = if how == "hang" { format!("{}.no_hang", prop.id()) } else { format!("{}.no_abort", prop.id()) };
+                    out.fails.push((from, case, Fail { clause, detail: how, known: None }));
+                }
+                Err(_) => out.harness_errors.push(format!("child for runs from {from} died without a parsable intent: {how}")),
+            }
+        }
+    }
+    out
 }
